@@ -1,4 +1,281 @@
-(* C06 - == on Buildables is an equivalence relation congruent with build. *)
-From Fiddle Require Import PyBase PySlice Sig ArgStore PyCall Heap Traverse Eq Anchors.
+(* C06 - == on Buildables is an equivalence relation congruent with build.
+   Model: theories/Eq.v (Eq.veq / Eq.cfg_eq = Buildable.__eq__ with check_dag = True).
+   Proofs: theories/Eq_proofs.v.
 
-Example C06_placeholder : True. Proof. exact I. Qed.
+   Proved: == on leaves and the DAG comparison are equivalences; cfg_eq is reflexive on
+   well-formed heaps whose dict keys are distinct up to Python ==, symmetric when dict keys are
+   distinct, transitive unconditionally; its fuel is adequate when signature defaults are leaves;
+   it distinguishes kinds, callables and leaf arguments.
+   Refuted (the two known findings at _compare_buildable): == is not congruent with the sharing
+   structure, and it depends on dict insertion order. *)
+From Fiddle Require Import PyBase PySlice Sig ArgStore PyCall Heap Traverse Build Build_stmt
+  Traverse_proofs Eq Eq_proofs Anchors.
+From Coq Require Import List Arith Permutation.
+Import ListNotations.
+Local Open Scope nat_scope.
+
+(* ------------------------------------------------------------------------------------------ *)
+(* 1. Python == on leaves (bool is an int) is an equivalence *)
+
+Theorem C06_atom_eq_refl : forall a, atom_py_eq a a = true.
+Proof. exact atom_py_eq_refl. Qed.
+Print Assumptions C06_atom_eq_refl.
+
+Theorem C06_atom_eq_sym : forall a b, atom_py_eq a b = atom_py_eq b a.
+Proof. exact atom_py_eq_sym. Qed.
+Print Assumptions C06_atom_eq_sym.
+
+Theorem C06_atom_eq_trans : forall a b c,
+  atom_py_eq a b = true -> atom_py_eq b c = true -> atom_py_eq a c = true.
+Proof. exact atom_py_eq_trans. Qed.
+Print Assumptions C06_atom_eq_trans.
+
+(* it is equality after reading True / False as 1 / 0 *)
+Theorem C06_atom_eq_norm : forall a b, atom_py_eq a b = true <-> atom_norm a = atom_norm b.
+Proof. exact atom_py_eq_norm. Qed.
+Print Assumptions C06_atom_eq_norm.
+
+(* ------------------------------------------------------------------------------------------ *)
+(* 2. sorted(paths_x) == sorted(paths_y) is multiset equality; the DAG check is an equivalence *)
+
+Theorem C06_perm_b_Permutation : forall a b : list path, perm_b a b = true <-> Permutation a b.
+Proof. exact perm_b_Permutation. Qed.
+Print Assumptions C06_perm_b_Permutation.
+
+Theorem C06_perm_b_refl : forall a, perm_b a a = true.
+Proof. exact perm_b_refl. Qed.
+Print Assumptions C06_perm_b_refl.
+
+Theorem C06_perm_b_sym : forall a b, perm_b a b = perm_b b a.
+Proof. exact perm_b_sym. Qed.
+Print Assumptions C06_perm_b_sym.
+
+Theorem C06_perm_b_trans : forall a b c,
+  perm_b a b = true -> perm_b b c = true -> perm_b a c = true.
+Proof. exact perm_b_trans. Qed.
+Print Assumptions C06_perm_b_trans.
+
+Theorem C06_dag_eq_refl : forall e h r, dag_eq e h r r = true.
+Proof. exact dag_eq_refl. Qed.
+Print Assumptions C06_dag_eq_refl.
+
+Theorem C06_dag_eq_sym : forall e h a b, dag_eq e h a b = dag_eq e h b a.
+Proof. exact dag_eq_sym. Qed.
+Print Assumptions C06_dag_eq_sym.
+
+Theorem C06_dag_eq_trans : forall e h a b c,
+  dag_eq e h a b = true -> dag_eq e h b c = true -> dag_eq e h a c = true.
+Proof. exact dag_eq_trans. Qed.
+Print Assumptions C06_dag_eq_trans.
+
+(* ------------------------------------------------------------------------------------------ *)
+(* 3. reflexivity.  keys_py_distinct h: in every dict / defaultdict node the keys are pairwise
+   different for Python == (checked by computation: forallb ... h = true).  No hypothesis on the
+   signature defaults is needed: comparing a value with itself never consults a default. *)
+
+Theorem C06_eq_refl : forall e h,
+  wf_b e h = true -> keys_py_distinct h ->
+  forall r, root_ok h r -> cfg_eq e h r r = true.
+Proof. exact cfg_eq_refl. Qed.
+Print Assumptions C06_eq_refl.
+
+(* with any fuel above the rank of the root *)
+Theorem C06_veq_refl : forall e h,
+  wf_b e h = true -> keys_py_distinct h ->
+  forall f r, ref_rank r < f -> root_ok h r -> veq e h f r r = true.
+Proof. exact veq_refl. Qed.
+Print Assumptions C06_veq_refl.
+
+(* both hypotheses are needed *)
+Theorem C06_eq_refl_needs_distinct_keys :
+  wf_b [] dupkey_heap = true /\
+  cfg_eq [] dupkey_heap (RP 2) (RP 2) = false /\
+  cfg_eq [] dupkey_heap (RP 4) (RP 3) = true /\ cfg_eq [] dupkey_heap (RP 3) (RP 4) = false.
+Proof. exact keys_py_distinct_needed. Qed.
+Print Assumptions C06_eq_refl_needs_distinct_keys.
+
+Theorem C06_eq_refl_needs_wf :
+  wf_b [] [NList [RP 0]] = false /\ keys_py_distinct [NList [RP 0]] /\
+  cfg_eq [] [NList [RP 0]] (RP 0) (RP 0) = false.
+Proof. exact wf_needed_for_refl. Qed.
+Print Assumptions C06_eq_refl_needs_wf.
+
+(* ------------------------------------------------------------------------------------------ *)
+(* 4. symmetry (distinct dict keys; well-formedness not needed) and transitivity (no hypothesis),
+   at every fuel and in particular for cfg_eq *)
+
+Theorem C06_eq_sym : forall e h, keys_py_distinct h ->
+  forall a b, cfg_eq e h a b = cfg_eq e h b a.
+Proof. exact cfg_eq_sym. Qed.
+Print Assumptions C06_eq_sym.
+
+Theorem C06_veq_sym : forall e h, keys_py_distinct h ->
+  forall f a b, veq e h f a b = veq e h f b a.
+Proof. exact veq_sym. Qed.
+Print Assumptions C06_veq_sym.
+
+Theorem C06_eq_trans : forall e h a b c,
+  cfg_eq e h a b = true -> cfg_eq e h b c = true -> cfg_eq e h a c = true.
+Proof. exact cfg_eq_trans. Qed.
+Print Assumptions C06_eq_trans.
+
+Theorem C06_veq_trans : forall e h f a b c,
+  veq e h f a b = true -> veq e h f b c = true -> veq e h f a c = true.
+Proof. exact veq_trans. Qed.
+Print Assumptions C06_veq_trans.
+
+Theorem C06_eq_equivalence : forall e h, wf_b e h = true -> keys_py_distinct h ->
+  (forall r, root_ok h r -> cfg_eq e h r r = true) /\
+  (forall a b, cfg_eq e h a b = cfg_eq e h b a) /\
+  (forall a b c, cfg_eq e h a b = true -> cfg_eq e h b c = true -> cfg_eq e h a c = true).
+Proof. exact cfg_eq_equivalence. Qed.
+Print Assumptions C06_eq_equivalence.
+
+(* fuel: monotone always; on well-formed heaps whose signature defaults are all leaves
+   (defaults_atomic, implied by the computable defaults_atomic_b) the fuel of cfg_eq is adequate,
+   so a False answer is never an exhausted budget *)
+Theorem C06_veq_fuel_mono : forall e h f f' a b,
+  veq e h f a b = true -> f <= f' -> veq e h f' a b = true.
+Proof. exact veq_fuel_mono. Qed.
+Print Assumptions C06_veq_fuel_mono.
+
+Theorem C06_veq_fuel_stable : forall e h,
+  wf_b e h = true -> defaults_atomic e ->
+  forall f1 f2 a b,
+    ref_rank a < f1 -> ref_rank b < f1 -> ref_rank a < f2 -> ref_rank b < f2 ->
+    veq e h f1 a b = veq e h f2 a b.
+Proof. exact veq_fuel_stable. Qed.
+Print Assumptions C06_veq_fuel_stable.
+
+Theorem C06_eq_fuel_adequate : forall e h,
+  wf_b e h = true -> defaults_atomic e ->
+  forall f a b, S (length h) <= f -> veq e h f a b = cfg_eq e h a b.
+Proof. exact cfg_eq_fuel_adequate. Qed.
+Print Assumptions C06_eq_fuel_adequate.
+
+Theorem C06_defaults_atomic_b_ok : forall e, defaults_atomic_b e = true -> defaults_atomic e.
+Proof. exact defaults_atomic_b_ok. Qed.
+Print Assumptions C06_defaults_atomic_b_ok.
+
+(* ------------------------------------------------------------------------------------------ *)
+(* 5. == distinguishes *)
+
+(* == on two Buildables, one step unfolded: same kind, same callable, every key stored on either
+   side has == values-or-defaults, and the same multiset of first-visit paths *)
+Theorem C06_eq_buildables_unfold : forall e h i j k1 k2 fn1 fn2 a1 a2 t1 t2,
+  nth_error h i = Some (NBuildable k1 fn1 a1 t1) ->
+  nth_error h j = Some (NBuildable k2 fn2 a2 t2) ->
+  cfg_eq e h (RP i) (RP j) =
+  (if bkind_eq_dec k1 k2 then true else false) && N.eqb fn1 fn2
+  && forallb (arg_ok e (veq e h (length h)) fn1 a1 fn2 a2) (union_keys a1 a2)
+  && dag_eq e h (RP i) (RP j).
+Proof. exact cfg_eq_buildables. Qed.
+Print Assumptions C06_eq_buildables_unfold.
+
+Theorem C06_eq_diff_kind : forall e h i j k1 k2 fn1 fn2 a1 a2 t1 t2,
+  nth_error h i = Some (NBuildable k1 fn1 a1 t1) ->
+  nth_error h j = Some (NBuildable k2 fn2 a2 t2) ->
+  k1 <> k2 -> cfg_eq e h (RP i) (RP j) = false.
+Proof. exact cfg_eq_diff_kind. Qed.
+Print Assumptions C06_eq_diff_kind.
+
+Theorem C06_eq_diff_callable : forall e h i j k1 k2 fn1 fn2 a1 a2 t1 t2,
+  nth_error h i = Some (NBuildable k1 fn1 a1 t1) ->
+  nth_error h j = Some (NBuildable k2 fn2 a2 t2) ->
+  fn1 <> fn2 -> cfg_eq e h (RP i) (RP j) = false.
+Proof. exact cfg_eq_diff_callable. Qed.
+Print Assumptions C06_eq_diff_callable.
+
+Theorem C06_eq_diff_leaf : forall e h i j k1 k2 fn1 fn2 a1 a2 t1 t2,
+  nth_error h i = Some (NBuildable k1 fn1 a1 t1) ->
+  nth_error h j = Some (NBuildable k2 fn2 a2 t2) ->
+  forall key x y,
+    sget a1 key = Some (RA x) -> sget a2 key = Some (RA y) -> atom_py_eq x y = false ->
+    cfg_eq e h (RP i) (RP j) = false.
+Proof. exact cfg_eq_diff_leaf. Qed.
+Print Assumptions C06_eq_diff_leaf.
+
+(* also against a default, for a key stored on at least one side *)
+Theorem C06_eq_diff_leaf_or_default : forall e h i j k1 k2 fn1 fn2 a1 a2 t1 t2,
+  nth_error h i = Some (NBuildable k1 fn1 a1 t1) ->
+  nth_error h j = Some (NBuildable k2 fn2 a2 t2) ->
+  forall key x y,
+    In key (map fst a1) \/ In key (map fst a2) ->
+    val_or_default e fn1 a1 key = Some (RA x) -> val_or_default e fn2 a2 key = Some (RA y) ->
+    atom_py_eq x y = false -> cfg_eq e h (RP i) (RP j) = false.
+Proof. exact cfg_eq_diff_leaf_or_default. Qed.
+Print Assumptions C06_eq_diff_leaf_or_default.
+
+Theorem C06_eq_missing_no_default : forall e h i j k1 k2 fn1 fn2 a1 a2 t1 t2,
+  nth_error h i = Some (NBuildable k1 fn1 a1 t1) ->
+  nth_error h j = Some (NBuildable k2 fn2 a2 t2) ->
+  forall key,
+    In key (map fst a1) -> sget a2 key = None -> default_of (sig_of e fn2) key = None ->
+    cfg_eq e h (RP i) (RP j) = false.
+Proof. exact cfg_eq_missing_no_default. Qed.
+Print Assumptions C06_eq_missing_no_default.
+
+(* ------------------------------------------------------------------------------------------ *)
+(* 6. the known findings (refutations, by computation) *)
+
+(* a = k(x=A, y=B, z=A) and b = k(x=A2, y=B2, z=B2) with A, B, A2, B2 four distinct == lists:
+   a == b although x and z are one object in a and two objects in b *)
+Theorem C06_congruent_refuted :
+  wf_b cx1_env cx1_heap = true /\ keys_py_distinct cx1_heap /\ defaults_atomic_b cx1_env = true /\
+  nth_error cx1_heap 4 = Some (NBuildable BConfig 1%N cx1_args_a []) /\
+  nth_error cx1_heap 5 = Some (NBuildable BConfig 1%N cx1_args_b []) /\
+  forallb (fun p => cfg_eq cx1_env cx1_heap (RP (fst p)) (RP (snd p)))
+    [(0, 1); (0, 2); (0, 3); (1, 2); (1, 3); (2, 3)] = true /\
+  cfg_eq cx1_env cx1_heap (RP 4) (RP 5) = true /\
+  sget cx1_args_a (KName 10%N) = sget cx1_args_a (KName 12%N) /\
+  sget cx1_args_b (KName 10%N) <> sget cx1_args_b (KName 12%N) /\
+  iso_b cx1_heap cx1_heap (RP 4) (RP 5) = false.
+Proof. exact eq_not_congruent_sharing. Qed.
+Print Assumptions C06_congruent_refuted.
+
+Theorem C06_congruent_refuted_forall :
+  ~ (forall e h a b, wf_b e h = true -> keys_py_distinct h -> defaults_atomic e ->
+                     cfg_eq e h a b = true -> iso_b h h a b = true).
+Proof. exact eq_not_congruent. Qed.
+Print Assumptions C06_congruent_refuted_forall.
+
+(* a = f({'a': f(L), 'b': L}) and b = f({'b': L2, 'a': f(L2)}): the dict arguments are equal
+   as maps and ==, the sharing is the same, only the insertion order differs; a != b *)
+Theorem C06_dict_order_refuted :
+  wf_b cx2_env cx2_heap = true /\ keys_py_distinct cx2_heap /\ defaults_atomic_b cx2_env = true /\
+  nth_error cx2_heap 3 = Some (NBuildable BConfig 2%N [(KName 20%N, RP 2)] []) /\
+  nth_error cx2_heap 7 = Some (NBuildable BConfig 2%N [(KName 20%N, RP 6)] []) /\
+  nth_error cx2_heap 2 = Some (NDict cx2_d1) /\ nth_error cx2_heap 6 = Some (NDict cx2_d2) /\
+  map fst cx2_d2 = rev (map fst cx2_d1) /\
+  forallb (kv_ok (cfg_eq cx2_env cx2_heap) cx2_d2) cx2_d1 = true /\
+  forallb (kv_ok (cfg_eq cx2_env cx2_heap) cx2_d1) cx2_d2 = true /\
+  cfg_eq cx2_env cx2_heap (RP 2) (RP 6) = true /\
+  (nth_error cx2_heap 1 = Some (NBuildable BConfig 2%N [(KName 20%N, RP 0)] []) /\
+   akv_get cx2_d1 cx2_kb = Some (RP 0)) /\
+  (nth_error cx2_heap 5 = Some (NBuildable BConfig 2%N [(KName 20%N, RP 4)] []) /\
+   akv_get cx2_d2 cx2_kb = Some (RP 4)) /\
+  cfg_eq cx2_env cx2_heap (RP 3) (RP 7) = false /\
+  first_paths cx2_env cx2_heap (RP 3) =
+    [[]; [PAttr 20%N]; [PAttr 20%N; PKey cx2_ka]; [PAttr 20%N; PKey cx2_ka; PAttr 20%N];
+     [PAttr 20%N; PKey cx2_ka; PAttr 20%N; PIndex 0%Z]] /\
+  first_paths cx2_env cx2_heap (RP 7) =
+    [[]; [PAttr 20%N]; [PAttr 20%N; PKey cx2_kb]; [PAttr 20%N; PKey cx2_kb; PIndex 0%Z];
+     [PAttr 20%N; PKey cx2_ka]].
+Proof. exact eq_depends_on_dict_order. Qed.
+Print Assumptions C06_dict_order_refuted.
+
+(* ------------------------------------------------------------------------------------------ *)
+(* 7. non-vacuity: k(x=f(a=L), y=f(a=L, b=7)) twice (distinct objects, L shared: a diamond) and
+   once with another leaf in L *)
+
+Theorem C06_example :
+  wf_b eqx_env eqx_heap = true /\ keys_py_distinct eqx_heap /\ defaults_atomic_b eqx_env = true /\
+  cfg_eq eqx_env eqx_heap (RP 3) (RP 7) = true /\
+  cfg_eq eqx_env eqx_heap (RP 7) (RP 3) = true /\
+  cfg_eq eqx_env eqx_heap (RP 3) (RP 3) = true /\
+  cfg_eq eqx_env eqx_heap (RP 1) (RP 2) = true /\
+  iso_b eqx_heap eqx_heap (RP 3) (RP 7) = true /\
+  cfg_eq eqx_env eqx_heap (RP 3) (RP 11) = false /\
+  cfg_eq eqx_env eqx_heap (RP 11) (RP 7) = false.
+Proof. exact eq_example. Qed.
+Print Assumptions C06_example.
